@@ -185,6 +185,12 @@ func DefsOf(info *types.Info, body ast.Node, v *types.Var) []Def {
 func SingleDef(info *types.Info, body ast.Node, v *types.Var) (Def, bool) {
 	defs := DefsOf(info, body, v)
 	if len(defs) == 1 && defs[0].Rhs != nil {
+		// a variable declared outside the body (a parameter, receiver or named result) has an
+		// implicit definition at entry: its one assignment in the body is not its only definition.
+		// (The synthetic `param := arg` of a flattened view is a defining occurrence and does count.)
+		if (v.Pos() < body.Pos() || v.Pos() > body.End()) && defs[0].Kind != "define" {
+			return Def{}, false
+		}
 		return defs[0], true
 	}
 	return Def{}, false
